@@ -817,16 +817,18 @@ func main() {
 	curated := curatedPVs()
 	sites := []int{inHandler, inMWBefore, inMWAfter, inHandlerUpdates, inHandlerView}
 	rounds := 1
-	nrandom := 150
+	nrandom := 120
 	if tier == "thorough" {
 		rounds = 6
 		nrandom = 3000
 	}
 	for round := 0; round < rounds; round++ {
 		for vi := range curated {
-			for _, rq := range requests {
+			for ri, rq := range requests {
 				for _, where := range sites {
-					if (where == inHandlerUpdates || where == inHandlerView) && rnd.Pct(60) && tier != "thorough" {
+					// quick tier: every value x site, on a seeded sample of the request kinds (each kind
+					// is hit by many values); thorough tier: the full product, several rounds
+					if tier != "thorough" && (ri+vi+rnd.Intn(3))%3 != 0 {
 						continue
 					}
 					acts, progress := genActs(rnd)
